@@ -166,6 +166,8 @@ unique_ptr<DiscreteDistributionInterface> BppODiscreteDistributionFormat::readDi
     if (args.find("n") == args.end())
       throw Exception("Missing argument 'n' (number of classes) in " + distName
             + " distribution");
+    if (TextTools::to<int>(args["n"]) < 0)
+      throw Exception("Invalid number of classes 'n' in " + distName + " distribution: " + args["n"]);
     unsigned int nbClasses = TextTools::to<unsigned int>(args["n"]);
     if (nbClasses == 0)
       throw Exception("Invalid number of classes 'n' in " + distName + " distribution: " + args["n"]);
